@@ -26,12 +26,13 @@ class Contract:
     def __init__(self, qual, params, requires=(), ensures=(), raises=None, loops=None, measures=None, ghost=None,
                  make_inputs=None, make_result=None, havoc=None, defaults=None, is_property=False, modifies=(),
                  axioms=(), trace_op=None, stable_shapes=(), list_havoc=None, obj_havoc=None, cases=None,
-                 notes="", assumed=False, sym_lists=None, float_model=False, sym_dicts=(), raises_only_if=None):
+                 notes="", assumed=False, sym_lists=None, float_model=False, sym_dicts=(), raises_only_if=None, ensures_on_raise=None):
         self.qual, self.params = qual, list(params)
         self.short = qual.split(".", 2)[-1] if qual.count(".") >= 2 else qual
         self.requires, self.ensures = list(requires), list(ensures)
         self.raises = dict(raises or {})
-        self.raises_only_if = dict(raises_only_if or {})      # ExceptionName -> condition that holds whenever it is raised (no converse claimed)
+        self.raises_only_if = dict(raises_only_if or {})
+        self.ensures_on_raise = dict(ensures_on_raise or {})   # ExceptionName -> specs that hold in the state in which that exception leaves the function      # ExceptionName -> condition that holds whenever it is raised (no converse claimed)
         self.loops = {int(k): list(v) for k, v in (loops or {}).items()}
         self.measures = dict(measures or {})
         self.ghost = dict(ghost or {})
